@@ -430,6 +430,12 @@ impl<'a> Gen<'a> {
         }
         let g = Shape::Seq(fields, true);
         let _ = depth;
+        // a documented section around the whole block (its members may carry one as well)
+        let g = if self.sw.docs && self.r.chance(1, 6) {
+            Shape::Wrap(W::GroupHelp(self.text()), Box::new(g))
+        } else {
+            g
+        };
         match self.r.below(4) {
             0 => g,
             1 => Shape::Wrap(W::Optional { catch: false }, Box::new(g)),
@@ -443,6 +449,9 @@ impl<'a> Gen<'a> {
     }
 
     fn wrap_light(&mut self, s: Shape) -> Shape {
+        if self.sw.docs && self.r.chance(1, 8) {
+            return Shape::Wrap(W::GroupHelp(self.text()), Box::new(s));
+        }
         match self.r.below(4) {
             0 => Shape::Wrap(W::Optional { catch: false }, Box::new(s)),
             1 => Shape::Wrap(
